@@ -449,8 +449,9 @@ impl<'a, 'tcx> Cx<'a, 'tcx> {
         o.push(("disp", s(format!("{}", c.const_))));
         if let mir::Const::Unevaluated(uv, _) = c.const_ {
             o.push(("uneval", s(nice(tcx, uv.def))));
-            if uv.promoted.is_some() {
+            if let Some(pi) = uv.promoted {
                 o.push(("promoted", J::B(true)));
+                o.push(("promoted_index", J::I(pi.index() as i64)));
             }
         }
         J::O(o)
@@ -1175,6 +1176,17 @@ fn fn_record<'tcx>(tcx: TyCtxt<'tcx>, ldid: LocalDefId) -> Option<J> {
         let env = ty::TypingEnv::post_analysis(tcx, did);
         let cx = Cx { tcx, body, did, env };
         o.push(("mir", cx.body_json()));
+        // promoted constants of this body (`&(0..N)`, `&N` in a pattern): small bodies that compute the value a
+        // `promoted[i]` constant operand refers to
+        let proms = tcx.promoted_mir(did);
+        let mut pv = vec![];
+        for (i, pb) in proms.iter_enumerated() {
+            let pcx = Cx { tcx, body: pb, did, env };
+            pv.push(J::O(vec![("index", J::I(i.index() as i64)), ("mir", pcx.body_json())]));
+        }
+        if !pv.is_empty() {
+            o.push(("promoted_bodies", J::A(pv)));
+        }
         if let Some(layout) = body.coroutine_layout_raw() {
             o.push(("coroutine_variants", J::I(layout.variant_fields.len() as i64)));
         }
